@@ -51,7 +51,7 @@ def gen(rng, tier):
         sticky = rng.random() < 0.5
         cfg = "cfg via=%s" % via
         if sticky:
-            cfg += " sticky=1"
+            cfg += " sticky=1" + rng.choice(["", "", " codec=hash", " codec=aes"])
         adjusting = via == "rb" and rng.random() < 0.5
         if via == "rb":
             cfg += " backoff=%d ready=%d" % (rng.choice([1, 1000, 10 ** 9]), 1 if adjusting else rng.choice([0, 1]))
